@@ -18,10 +18,14 @@ Status of the design's statements
   file); proved under the explicit guard `opSafe` (= `OpGuard`, `opSafe_iff`) as
   `coherent_step_partial`, `coherent_run_from`, `coherent_run_partial` (induction over the operation
   sequence, no bound on its length), for *all* public operations (mkdir, create, delete, rename,
-  set_oid, update) and both case modes.  The guard: the target path is not the root, and the id being
-  assigned is not held by an existing proper ancestor of the target (the root included).  Its
-  complement is refuted by four kernel-checked witnesses (`…_witness`, `…_incoherent`), each
-  replayed on the real code on every run (known findings).
+  set_oid, update) and both case modes.  The guard only excludes caller misuse: the target path of an
+  id-assigning operation / of a rename is not the root, and the id being assigned is not the root's
+  own id.  Its complement is refuted by two kernel-checked witnesses (`…_witness`, `…_incoherent`),
+  each replayed on the real code on every run (known findings).
+* repaired (fix `evict before resolving the parent` in `__insert_node` / `_set_oid`): an id held by an
+  ancestor of the target used to leave an unreachable node in the id map; the two former witnesses
+  are now instances of the theorem (`insert_under_ancestor_repaired`, `set_oid_ancestor_repaired`)
+  and their replays are `fixed:` entries re-checked on every run.
 * not proved (stretch goal of the design): refinement `hcache_refines_dict` to the plain dictionary
   spec; the harness's search oracle compares against that dictionary instead.
 -/
@@ -100,7 +104,7 @@ theorem delete_preserves {c : Cfg} (g : CfgGood c) {s : HC} (hc : Coherent c s) 
    theorem coherent_step (g : CfgGood c) (hc : Coherent c s) (op : Op) : Coherent c (step c s op).1 -/
 
 /-- every public operation preserves coherence whenever the (executable) guard holds in the
-    pre-state: target path ≠ root, id being assigned not held by an existing proper ancestor -/
+    pre-state: target path ≠ root, id being assigned ≠ the root's id -/
 theorem coherent_step_partial {c : Cfg} (g : CfgGood c) {s : HC} (hc : Coherent c s) (op : Op)
     (hg : opSafe c s op = true) : Coherent c (step c s op).1 :=
   step_coherent g hc op ((opSafe_iff g s op).1 hg)
@@ -149,7 +153,7 @@ theorem delete_forgets_descendants {c : Cfg} (g : CfgGood c) {s : HC} (hc : Cohe
   obtain ⟨dp, e2, _, _⟩ := delete_spec g s oid path hc
   have hx0 : x ≠ 0 := by
     intro e; subst e; exact hne (hc.res_root hx)
-  obtain ⟨hout, hgone⟩ := e2 x kx hlook hx
+  obtain ⟨hout, hgone, _⟩ := e2 x kx hlook hx
   have hgone' := hgone hok hx0
   refine ⟨dp.coh, hgone', hout, fun q m o hq hm ho h0 => ?_⟩
   have hnone : dget (delete c oid path s).1.idmap o = none := by
@@ -286,67 +290,6 @@ theorem get_path_of_cached_id {c : Cfg} (g : CfgGood c) {s : HC} (hc : Coherent 
     obtain ⟨p, hp, _⟩ := get_path_get_oid_inverse g hc hd
     rw [hp]; rfl
 
-def w_insert_under_ancestor : List Op :=
-  [.mkdir "/a".toList (some 1), .mkdir "/a/b".toList (some 2), .create "/a/b/a".toList (some 1)]
-
-/-- `mkdir('/a','1'); mkdir('/a/b','2'); create('/a/b/a','1')`: the last operation is outside the
-    guard (the id is held by the ancestor `/a`), and afterwards id 1 is cached (`get_type(oid=1)` is
-    FILE) while `get_path(1)` is None: the id map holds an unreachable node -/
-theorem insert_under_ancestor_witness :
-    opSafe c0 (run c0 (init 9) (w_insert_under_ancestor.take 2)) (.create "/a/b/a".toList (some 1)) = false ∧
-    isOkSome (getType c0 (run c0 (init 9) w_insert_under_ancestor) (some 1) none) = true ∧
-    isOkNone (getPath c0 (run c0 (init 9) w_insert_under_ancestor) 1) = true := by
-  decide +kernel
-
-theorem insert_under_ancestor_incoherent : ¬ Coherent c0 (run c0 (init 9) w_insert_under_ancestor) := by
-  intro hc
-  have h := get_path_of_cached_id c0_good hc 1 insert_under_ancestor_witness.2.1 (by decide +kernel)
-  rw [insert_under_ancestor_witness.2.2] at h
-  exact absurd h (by simp)
-
-def w_set_oid_ancestor : List Op :=
-  [.mkdir "/a".toList (some 1), .mkdir "/a/b".toList none, .setOid "/a/b".toList (some 1) .dir]
-
-/-- `mkdir('/a','1'); mkdir('/a/b',None); set_oid('/a/b','1',DIRECTORY)` -/
-theorem set_oid_ancestor_witness :
-    opSafe c0 (run c0 (init 9) (w_set_oid_ancestor.take 2)) (.setOid "/a/b".toList (some 1) .dir) = false ∧
-    isOkSome (getType c0 (run c0 (init 9) w_set_oid_ancestor) (some 1) none) = true ∧
-    isOkNone (getPath c0 (run c0 (init 9) w_set_oid_ancestor) 1) = true := by
-  decide +kernel
-
-theorem set_oid_ancestor_incoherent : ¬ Coherent c0 (run c0 (init 9) w_set_oid_ancestor) := by
-  intro hc
-  have h := get_path_of_cached_id c0_good hc 1 set_oid_ancestor_witness.2.1 (by decide +kernel)
-  rw [set_oid_ancestor_witness.2.2] at h
-  exact absurd h (by simp)
-
-def w_root_id : List Op :=
-  [.mkdir "/a".toList (some 1), .create "/a/b".toList (some 9)]
-
-/-- `mkdir('/a','1'); create('/a/b', <root id>)`: the root's id ends up mapped to an unreachable node:
-    `get_path(root id)` is None -/
-theorem root_id_reused_witness :
-    opSafe c0 (run c0 (init 9) (w_root_id.take 1)) (.create "/a/b".toList (some 9)) = false ∧
-    isOkNone (getPath c0 (run c0 (init 9) w_root_id) 9) = true ∧
-    isOkNone (getOid c0 (run c0 (init 9) w_root_id) "/a".toList) = true := by
-  decide +kernel
-
-theorem root_id_reused_incoherent : ¬ Coherent c0 (run c0 (init 9) w_root_id) := by
-  intro hc
-  obtain ⟨r, hr, hr0⟩ := hc.root_oid
-  have hd := hc.dget_idmap.2 ⟨Reach.root _, hr, hr0⟩
-  obtain ⟨p, hp, _⟩ := get_path_get_oid_inverse c0_good hc hd
-  have h9 : r = 9 := by
-    have : ((run c0 (init 9) w_root_id).nd 0).oid = some 9 := by decide +kernel
-    rw [hr] at this; exact Option.some.inj this
-  subst h9
-  have := root_id_reused_witness.2.1
-  rw [hp] at this
-  exact absurd this (by simp [isOkNone])
-
-def w_root_path : List Op :=
-  [.mkdir "/a".toList (some 1), .create "/".toList (some 2)]
-
 def okEq (a : Except Err (Option Str)) (b : Str) : Bool :=
   match a with
   | .ok (some x) => x == b
@@ -356,6 +299,70 @@ def okOid (a : Except Err (Option Oid)) (b : Oid) : Bool :=
   match a with
   | .ok (some x) => x == b
   | _ => false
+
+def w_insert_under_ancestor : List Op :=
+  [.mkdir "/a".toList (some 1), .mkdir "/a/b".toList (some 2), .create "/a/b/a".toList (some 1)]
+
+/-- `mkdir('/a','1'); mkdir('/a/b','2'); create('/a/b/a','1')` (the id is held by the ancestor `/a`):
+    before the repair the id map kept an unreachable node; now the sequence is inside the guard, the
+    result is coherent, and id 1 resolves to the new file and back -/
+theorem insert_under_ancestor_repaired :
+    Coherent c0 (run c0 (init 9) w_insert_under_ancestor) ∧
+    okEq (getPath c0 (run c0 (init 9) w_insert_under_ancestor) 1) "/a/b/a".toList = true ∧
+    okOid (getOid c0 (run c0 (init 9) w_insert_under_ancestor) "/a/b/a".toList) 1 = true :=
+  ⟨coherent_run_partial c0_good 9 (by decide) _ (by decide +kernel), by decide +kernel, by decide +kernel⟩
+
+def w_set_oid_ancestor : List Op :=
+  [.mkdir "/a".toList (some 1), .mkdir "/a/b".toList none, .setOid "/a/b".toList (some 1) .dir]
+
+/-- `mkdir('/a','1'); mkdir('/a/b',None); set_oid('/a/b','1',DIRECTORY)`: repaired likewise -/
+theorem set_oid_ancestor_repaired :
+    Coherent c0 (run c0 (init 9) w_set_oid_ancestor) ∧
+    okEq (getPath c0 (run c0 (init 9) w_set_oid_ancestor) 1) "/a/b".toList = true ∧
+    okOid (getOid c0 (run c0 (init 9) w_set_oid_ancestor) "/a/b".toList) 1 = true :=
+  ⟨coherent_run_partial c0_good 9 (by decide) _ (by decide +kernel), by decide +kernel, by decide +kernel⟩
+
+def w_root_id : List Op :=
+  [.mkdir "/a".toList (some 1), .create "/a/b".toList (some 9)]
+
+theorem okOid_ok {a : Except Err (Option Oid)} {b : Oid} (h : okOid a b = true) : a = .ok (some b) := by
+  cases a with
+  | error e => simp [okOid] at h
+  | ok v =>
+    cases v with
+    | none => simp [okOid] at h
+    | some x => simp only [okOid, beq_iff_eq] at h; rw [h]
+
+theorem okEq_ok {a : Except Err (Option Str)} {b : Str} (h : okEq a b = true) : a = .ok (some b) := by
+  cases a with
+  | error e => simp [okEq] at h
+  | ok v =>
+    cases v with
+    | none => simp [okEq] at h
+    | some x => simp only [okEq, beq_iff_eq] at h; rw [h]
+
+/-- `mkdir('/a','1'); create('/a/b', <root id>)`: the operation is outside the guard; it empties the
+    cache, re-creates `/a`, links the new node and then fails (the eviction of "the previous owner" of
+    the root's id recurses through the root for ever: RecursionError), leaving two reachable nodes
+    with the root's id: `get_oid('/a/b')` is the root's id, while `get_path(root id)` is '/' -/
+theorem root_id_reused_witness :
+    opSafe c0 (run c0 (init 9) (w_root_id.take 1)) (.create "/a/b".toList (some 9)) = false ∧
+    okOid (getOid c0 (run c0 (init 9) w_root_id) "/a/b".toList) 9 = true ∧
+    okEq (getPath c0 (run c0 (init 9) w_root_id) 9) "/".toList = true := by
+  decide +kernel
+
+theorem root_id_reused_incoherent : ¬ Coherent c0 (run c0 (init 9) w_root_id) := by
+  intro hc
+  have h1 := okOid_ok root_id_reused_witness.2.1
+  have h2 := okEq_ok root_id_reused_witness.2.2
+  have h3 := get_oid_get_path_inverse c0_good hc h1 (by decide)
+  rw [h2] at h3
+  have : ("/".toList : Str) = normalizePath c0 "/a/b".toList false := by
+    simpa using h3
+  exact absurd this (by decide +kernel)
+
+def w_root_path : List Op :=
+  [.mkdir "/a".toList (some 1), .create "/".toList (some 2)]
 
 /-- `mkdir('/a','1'); create('/','2')`: the cache is emptied and a child named '' appears under the
     root: `get_path(2)` is '/', but `get_oid('/')` is the root's id -/
